@@ -3,6 +3,7 @@ package an
 import (
 	"fmt"
 	"go/token"
+	"go/types"
 	"math"
 	"sort"
 	"strings"
@@ -207,6 +208,39 @@ type Frame struct {
 	Assume map[ssa.Value]bool
 	// Domain restricts the subject (nil = all integers); lengths are >= 0.
 	Domain Set
+	// SubjectPath / SymPath: the subject (and the single symbol) by access
+	// path; used when IsSubject / Term are nil.
+	SubjectPath, SymPath string
+	// In: the frame is evaluating the body of this call's callee; access
+	// paths are written in the caller's terms (PathOfIn).
+	In *ssa.CallCommon
+}
+
+func (f Frame) pathOf(v ssa.Value) string {
+	if f.In != nil {
+		return PathOfIn(v, f.In)
+	}
+	return PathOf(v)
+}
+
+func (f Frame) isSubject(v ssa.Value) bool {
+	if f.IsSubject != nil {
+		return f.IsSubject(v)
+	}
+	return f.SubjectPath != "" && f.pathOf(v) == f.SubjectPath
+}
+
+func (f Frame) term(v ssa.Value) (int64, bool) {
+	if f.Term != nil {
+		return f.Term(v)
+	}
+	if f.SymPath != "" {
+		if f.pathOf(v) == f.SymPath {
+			return 0, true
+		}
+		return 0, false
+	}
+	return ConstInt(v)
 }
 
 func (f Frame) full() Set {
@@ -219,7 +253,7 @@ func (f Frame) full() Set {
 // NoSubject is a frame without subject: BoolMeaning then only folds
 // constants, phis (by path), negations and assumptions.
 func NoSubject() Frame {
-	return Frame{IsSubject: func(ssa.Value) bool { return false }, Term: func(ssa.Value) (int64, bool) { return 0, false }}
+	return Frame{}
 }
 
 // ConstFrame: subject by access path, terms are integer constants.
@@ -228,24 +262,12 @@ func ConstFrame(subjectPath string) Frame {
 	if strings.HasPrefix(subjectPath, "len(") {
 		dom = Range(0, PosInf)
 	}
-	return Frame{
-		Domain:    dom,
-		IsSubject: func(v ssa.Value) bool { return PathOf(v) == subjectPath },
-		Term:      func(v ssa.Value) (int64, bool) { return ConstInt(v) },
-	}
+	return Frame{Domain: dom, SubjectPath: subjectPath}
 }
 
 // SymFrame: subject by path, the single symbol by path (offset 0).
 func SymFrame(subjectPath, symPath string) Frame {
-	return Frame{
-		IsSubject: func(v ssa.Value) bool { return PathOf(v) == subjectPath },
-		Term: func(v ssa.Value) (int64, bool) {
-			if PathOf(v) == symPath {
-				return 0, true
-			}
-			return 0, false
-		},
-	}
+	return Frame{SubjectPath: subjectPath, SymPath: symPath}
 }
 
 // Atom interprets cond (with polarity) as a constraint on the subject.
@@ -271,14 +293,14 @@ func (f Frame) Atom(cond ssa.Value, pol bool) (Set, bool) {
 		return nil, false
 	}
 	var s Set
-	if f.IsSubject(b.X) {
-		k, ok := f.Term(b.Y)
+	if f.isSubject(b.X) {
+		k, ok := f.term(b.Y)
 		if !ok {
 			return nil, false
 		}
 		s = atomSet(b.Op, k)
-	} else if f.IsSubject(b.Y) {
-		k, ok := f.Term(b.X)
+	} else if f.isSubject(b.Y) {
+		k, ok := f.term(b.X)
 		if !ok {
 			return nil, false
 		}
@@ -450,8 +472,73 @@ func (f Frame) evalBool(v ssa.Value, p Path, depth int) (t, fs Set, known bool) 
 		if a, ok := f.Atom(x, true); ok {
 			return full.Intersect(a), full.Intersect(a.Complement()), true
 		}
+	case *ssa.Call:
+		// a pure predicate of the module (`isTagKey(k)`): its verdict means what its
+		// body means, read in the caller's terms
+		if g := StaticCallee(&x.Call); g != nil && f.In == nil && f.IsSubject == nil && f.Term == nil && IsPurePredicate(g) {
+			f2 := f
+			f2.In = &x.Call
+			f2.Assume = nil
+			if t, fs, _, ok := f2.FuncBoolMeaning(g, 0, nil, nil); ok {
+				return full.Intersect(t), full.Intersect(fs), true
+			}
+		}
 	}
 	return full, full, false
+}
+
+var purePred = map[*ssa.Function]int{} // 1 pure, 2 not
+
+// IsPurePredicate: a module function with a single bool result whose body
+// has no effect: no store except to its own locals, no map update, send, go,
+// defer, and only calls of builtins, of an allow-list of standard pure
+// functions, or of other pure predicates.
+func IsPurePredicate(g *ssa.Function) bool {
+	if v, ok := purePred[g]; ok {
+		return v == 1
+	}
+	purePred[g] = 2
+	if g == nil || len(g.Blocks) == 0 || g.Pkg == nil || !strings.HasPrefix(g.Pkg.Pkg.Path(), ModulePrefix) {
+		return false
+	}
+	res := g.Signature.Results()
+	if res.Len() != 1 {
+		return false
+	}
+	if bt, ok := res.At(0).Type().Underlying().(*types.Basic); !ok || bt.Kind() != types.Bool {
+		return false
+	}
+	pure := true
+	Instrs(g, func(in ssa.Instruction) {
+		switch x := in.(type) {
+		case *ssa.Store:
+			if ResolveAlloc(x.Addr) == nil {
+				pure = false
+			}
+		case *ssa.MapUpdate, *ssa.Send, *ssa.Go, *ssa.Defer, *ssa.Select, *ssa.Panic, *ssa.RunDefers:
+			pure = false
+		case *ssa.UnOp:
+			if x.Op == token.ARROW {
+				pure = false
+			}
+		case *ssa.Call:
+			if _, isB := x.Call.Value.(*ssa.Builtin); isB {
+				return
+			}
+			n := CalleeName(&x.Call)
+			if strings.HasPrefix(n, "strings.") || strings.HasPrefix(n, "bytes.") || strings.HasPrefix(n, "unicode/utf8.") || strings.HasPrefix(n, "unicode.") || strings.HasPrefix(n, "strconv.") || strings.HasPrefix(n, "slices.Contains") {
+				return
+			}
+			if sc := StaticCallee(&x.Call); sc != nil && sc != g && IsPurePredicate(sc) {
+				return
+			}
+			pure = false
+		}
+	})
+	if pure {
+		purePred[g] = 1
+	}
+	return pure
 }
 
 // BoolMeaning: (true-set, false-set) of v along p, within pm.
